@@ -24,7 +24,7 @@ from sim import repo, world
 
 LIST_OBS = ["getitem", "getitem", "slice", "slice", "len", "bool", "contains", "eq_list", "eq_lazy", "count",
             "reversed", "iterate", "listify", "copy", "iter", "force", "h_has_ind", "h_concat", "h_scalarify", "h_iterable",
-            "mkslice", "mkrev", "mkadd", "order"]
+            "mkslice", "mkrev", "mkadd", "mkwrap", "order"]
 REPRS = ["list", "gen", "iter", "range", "map", "tuple", "lazy", "lazycopy", "filter", "zip", "flagged"]
 BIG = 3333333333333333
 ITEM_POOLS = {
@@ -217,6 +217,12 @@ class C13(core.Check):
                 nxt += 1
             elif k == "mkadd":
                 events.append([k, h, [rs.randint(0, 3) for _ in range(rs.randint(0, 2))], nxt])
+                lists.append(nxt)
+                nxt += 1
+            elif k == "mkwrap":
+                # a lazy list built OVER h (directly, through a generator, through map): it enumerates what h enumerates,
+                # however much of h was forced before or is forced in between
+                events.append([k, h, rs.choice(["direct", "direct", "gen", "map"]), nxt])
                 lists.append(nxt)
                 nxt += 1
             else:
@@ -462,6 +468,18 @@ class C13(core.Check):
                         continue
                     handles[ev[3]] = ("list", h + list(ev[2]), list(msrc) + list(ev[2]))
                     got = "handle"
+                elif kind == "mkwrap":
+                    judge = False
+                    if ev[3] in handles:
+                        continue
+                    if ev[2] == "direct":
+                        d = LazyList(h)
+                    elif ev[2] == "gen":
+                        d = LazyList(x for x in h)
+                    else:
+                        d = LazyList(map(lambda x: x, h))
+                    handles[ev[3]] = ("list", d, list(msrc))
+                    got = "handle"
                 else:
                     continue
             except Exception as e:  # the list model never raises on a judged observation
@@ -485,7 +503,7 @@ class C13(core.Check):
                     steps=len(log), cov=sorted(cov), hist=self.hist(case),
                     probes={"small_scope": int(bool(case.get("small"))),
                             "copies": sum(1 for e in case["events"] if e[0] == "copy"),
-                            "derived": sum(1 for e in case["events"] if e[0] in ("mkslice", "mkrev", "mkadd"))})
+                            "derived": sum(1 for e in case["events"] if e[0] in ("mkslice", "mkrev", "mkadd", "mkwrap"))})
 
     def hist(self, case):
         return core.digest([case["src"], case["repr"], case.get("pre", 0), case["events"]])
